@@ -361,6 +361,17 @@ impl<'a> LuaParser<'a> {
     }
 
     pub fn push_error(&mut self, err: LuaParseError) {
+        // error recovery can retry at the same token: do not report the same error twice
+        // (errors arrive in text order, so only the errors at the same range need a look)
+        if self
+            .errors
+            .iter()
+            .rev()
+            .take_while(|e| e.range == err.range)
+            .any(|e| *e == err)
+        {
+            return;
+        }
         self.errors.push(err);
     }
 
